@@ -600,13 +600,7 @@ func evalPair(r *Result, p *prepared) {
 			problems = append(problems, fmt.Sprintf("merged file %d keeps a go:linkname directive but no longer imports unsafe", i))
 		}
 	}
-	// files: the overlay files come first, under the documented name in the package directory; .inc.js files are found
-	if len(merged) > 0 {
-		first := fset.Position(merged[0].Package).Filename
-		if !strings.HasSuffix(first, "/gopherjs__ov.go") {
-			problems = append(problems, "first merged file is "+first+", want the overlay file gopherjs__ov.go in the package directory")
-		}
-	}
+	// files: one per input file (how they are named or ordered is not part of the property); .inc.js files are found
 	wantFiles := 1 + len(p.origNames)
 	if p.isTest {
 		wantFiles++
